@@ -8,8 +8,8 @@ shared buffer in any order).
 TLC (a) checks the invariants of both modules on their step machines (OrderPreserved
 for every row count 1..1200; RoundTrip / StrideIsSlice / KeysSubset; WindowsDisjoint /
 WindowsCover / FinalIsConcatenation / WrongHintRejected over all task orders), (b)
-refutes, on the transcription of the pinned tree, the four stronger statements that are
-reported as findings, and (c) emits cases: the input, the calls to make, and what each
+shows on a what-if variant re-creating the pinned tree's four repaired branches that the
+corresponding invariants discriminate, and (c) emits cases: the input, the calls to make, and what each
 call must return according to the DEFINITION part of the module.  This driver realises
 every case as real files (PyTables files written by ra.save, trajectory files written
 by mdtraj), calls the real functions and compares bit by bit.  The order in which the
@@ -43,14 +43,15 @@ N_ATOMS = 4
 NONE = 1000000                                                 # PySlice!None
 
 H5_MC_INVS = ["TypeOK", "SaveInjective", "ListedIsRowOrder", "LengthsAreCeil", "FillInBounds", "StepMatchesOp",
-              "RoundTrip", "StrideIsSlice", "KeysSubset", "DeviationsAreAsDescribed"]
+              "RoundTrip", "StrideIsSlice", "KeysSubset", "RoundTripOneRow", "OldStyleStrideIsSlice"]
 PL_INVS = ["TypeOK", "MdLoadIsDef", "SoundExact", "OffsetsArePrefixSums", "WindowsDisjoint", "WindowsCover",
-           "FinalIsConcatenation", "WrongHintRejected", "ShapeMismatchRejected", "OnlyKnownSilentGarbage"]
+           "FinalIsConcatenation", "WrongHintRejected", "ShapeMismatchRejected", "WrongHintNeverSilent",
+           "WidthOneNeverSilent", "NoSilentGarbage"]
 
 # ---------------------------------------------------------------------------- scopes
 H5_BASE = dict(MaxRows=3, MaxLen=3, MaxStride=3, MaxKeys=3, NTags=2, OrderMin=1, OrderMax=1200, PairsMax=150,
                EmitRows="{1}", EmitRect="{1}", SmallN=3, Shifts=1, OldMax=11, EDims="{0, 2}", CLevels="{0, 1, 9}",
-               Emit="FALSE")
+               PinnedTree="FALSE", Emit="FALSE")
 
 H5_SCOPES = {
     "quick": dict(
@@ -503,8 +504,9 @@ def _h5_consts(sc, **over):
     return {k: str(v) for k, v in c.items()}
 
 
-def _pl_consts(sc, emit, track):
+def _pl_consts(sc, emit, track, pinned=False):
     c = dict(sc)
+    c["WidthCheck"] = c["PerFileCheck"] = "FALSE" if pinned else "TRUE"
     c["TrackOrder"] = "TRUE" if track else "FALSE"
     c["Emit"] = "TRUE" if emit else "FALSE"
     return {k: str(v) for k, v in c.items()}
@@ -549,8 +551,8 @@ def run(ctx):
             init="InitMC", workers=1, coverage=True, timeout=1500)
     sc0 = h5s["mc"][0]
     for inv in ("RoundTripOneRow", "OldStyleStrideIsSlice"):
-        add(("refute", inv), "H5Rows", "h5ref_%s.cfg" % inv, _h5_consts(sc0), [inv],
-            "H5Rows transcription refutes %s" % inv, init="InitMC", workers=1, timeout=600, expect_ok=False)
+        add(("refute", inv), "H5Rows", "h5ref_%s.cfg" % inv, _h5_consts(sc0, PinnedTree="TRUE"), [inv],
+            "H5Rows what-if: the pinned tree's load branches must break %s" % inv, init="InitMC", workers=1, timeout=600, expect_ok=False)
     for k, sc in enumerate(h5s["emit"]):
         add("h5emit", "H5Rows", "h5emit%d.cfg" % k, _h5_consts(sc, Emit="TRUE"), ["EmitInv"], "H5Rows emit %s" % sc,
             init="InitEmit", next_="NoNext", workers=1, timeout=1500)
@@ -560,12 +562,12 @@ def run(ctx):
             "ParallelLoad all schedules %s" % sc, workers=2 if ctx.tier == "quick" else 4, coverage=(k != 1),
             timeout=2400)
     add(("refute", "WrongHintNeverSilent"), "ParallelLoad", "plref_hint.cfg",
-        _pl_consts(_pl(1, 2, "{2, 3}", "{0}", "{1}", "shared", False, "none", "any"), False, False),
-        ["WrongHintNeverSilent"], "ParallelLoad transcription refutes WrongHintNeverSilent", workers=1, timeout=600,
+        _pl_consts(_pl(1, 2, "{2, 3}", "{0}", "{1}", "shared", False, "none", "any"), False, False, pinned=True),
+        ["WrongHintNeverSilent"], "ParallelLoad what-if: the pinned tree's total-only check must break WrongHintNeverSilent", workers=1, timeout=600,
         expect_ok=False)
     add(("refute", "WidthOneNeverSilent"), "ParallelLoad", "plref_width.cfg",
-        _pl_consts(_pl(1, 2, "{1, 3}", "{0}", "{1}", "perfile", False, "perfile", "none"), False, False),
-        ["WidthOneNeverSilent"], "ParallelLoad transcription refutes WidthOneNeverSilent", workers=1, timeout=600,
+        _pl_consts(_pl(1, 2, "{1, 3}", "{0}", "{1}", "perfile", False, "perfile", "none"), False, False, pinned=True),
+        ["WidthOneNeverSilent"], "ParallelLoad what-if: the pinned tree's unchecked width must break WidthOneNeverSilent", workers=1, timeout=600,
         expect_ok=False)
     for k, sc in enumerate(pls["emit"]):
         add("plemit", "ParallelLoad", "plemit%d.cfg" % k, _pl_consts(sc, True, True), ["EmitInv"],
@@ -600,9 +602,9 @@ def run(ctx):
     for role, r in by_role["refute"]:
         refuted[role[1]] = r.violated
         if r.violated != role[1]:
-            raise core.MachineryError("the transcription was expected to refute %s; TLC says violated=%s ok=%s"
+            raise core.MachineryError("the what-if model of the pinned tree was expected to break %s; TLC says violated=%s ok=%s"
                                       % (role[1], r.violated, r.ok))
-    ctx.notes["stronger_statements_refuted_on_the_transcription"] = sorted(refuted)
+    ctx.notes["invariants_shown_to_discriminate_on_the_pinned_tree_what_if"] = sorted(refuted)
 
     found = collections.OrderedDict()        # key -> [count, examples]
 
@@ -685,6 +687,11 @@ def run(ctx):
     ctx.notes["loader_calls_compared"] = pst["calls"]
     ctx.notes["loader_cases_per_class"] = dict(pst["classes"])
     ctx.notes["loader_transcription_vs_real_disagreements"] = {"n": pst["fid"], "examples": pst["fid_ex"]}
+    if st["fid"] or pst["fid"]:
+        # the step-level transcription no longer describes the code (kind of result or exception differs); the
+        # verdict on the property is the comparison with the DEFINITION above, so this is reported, not judged
+        print("NOTE C15 model-drift: the transcription in H5Rows/ParallelLoad differs from the real code on %d load "
+              "call(s) and %d loader call(s); see evidence notes" % (st["fid"], pst["fid"]))
     ctx.notes["wall_loader_replay_s"] = round(time.time() - t0, 1)
 
     # ---- the real pool
